@@ -373,7 +373,9 @@ type node struct {
 var kflNumbers = []string{"0", "1", "2", "3", "5", "7", "12", "42", "100", "1234567", "1000000", "1.5", "3.14", "0.1", "2.5", "1234567.4", "999999", "10000000", "16777217", "20000001", "123456789", "0.1000000001", "4294967297"}
 var kflStrings = []string{"", "hello", "x", "y", "12", "5", "1.5", "true", "null", "Chevrolet", "he", "lo", "api", "v1", "[REDACTED]",
 	// values that contain what an anchored literal pattern names without being equal to it
-	"hello world", "say hello", "xhellox", "v10", "/api/v1", "xx", "hey"}
+	"hello world", "say hello", "xhellox", "v10", "/api/v1", "xx", "hey",
+	// strings that look like dates and times in the notations of other languages: a record's strings are its own
+	"1990-04-01", "2021-10-19T08:30:02.500Z", "2021-10-19T08:30:02+00:00", "2021-10-19T08:30:02Z", "2021-10-19 08:30:02", "08:30", "2021-13-45"}
 var kflNumRe = regexp.MustCompile(`[0-9]+(\.[0-9]+)?`)
 
 var kflRegexes = []string{"h.*", "hel+o", "^he", "lo$", "x?y", ".*", "^hello$", "a.c", "z+", "^v1$", "^api$", "^x$", "^he$", "hello", "^hello", "hello$", "^$"}
@@ -862,7 +864,7 @@ func genKflEval(r *Rand, tier string, emit func(sx.Sx)) {
 	}
 	for i := 0; i < count; i++ {
 		e := g.expr(2)
-		g.pref = kflNumRe.FindAllString(e.text, -1)
+		g.pref = jsonNumbers(kflNumRe.FindAllString(e.text, -1))
 		emit(sx.L(sx.S(e.text), e.ast, g.record()))
 		g.pref = nil
 	}
@@ -954,6 +956,13 @@ func genKflFuzz(r *Rand, tier string, emit func(sx.Sx)) {
 		"<?xml version=\"1.0\"?>\r\n<r>\r\n  <s>t</s>\r\n</r>\r\n",
 		`<r a="b"><s>t</s><s u="v">w</s></r>`, `<r/>`, `<r></r>`, `<?xml version="1.0"?>`, `<?xml`, `<?`, `<r><![CDATA[x<y]]></r>`,
 		`<soap:Envelope xmlns:soap="u"><soap:Body><card>4111</card></soap:Body></soap:Envelope>`,
+		// declared encodings: implemented ones, registered ones without an implementation, unknown ones
+		"<?xml version=\"1.0\" encoding=\"ISO-8859-1\"?><r><s>t</s></r>", "<?xml version=\"1.0\" encoding=\"GB2312\"?><r><s>t</s></r>",
+		"<?xml version=\"1.0\" encoding=\"UTF-32\"?><r><s>t</s></r>", "<?xml version=\"1.0\" encoding=\"UTF-7\"?><r><s>t</s></r>",
+		"<?xml version=\"1.0\" encoding=\"TIS-620\"?><r><s>t</s></r>", "<?xml version=\"1.0\" encoding=\"ISO-2022-KR\"?><r><s>t</s></r>",
+		"<?xml version=\"1.0\" encoding=\"Big5-HKSCS\"?><r><s>t</s></r>", "<?xml version=\"1.0\" encoding=\"utf-16\"?><r><s>t</s></r>",
+		"<?xml version=\"1.0\" encoding=\"no-such-charset\"?><r><s>t</s></r>", "<?xml version=\"1.0\" encoding=\"\"?><r><s>t</s></r>",
+		"<?xml version=\"1.0\" encoding=\"windows-1252\"?><r a=\"b\"><s>caf\xe9</s></r>",
 		`<?xml version="1.0"?><envelope><body><card>4111</card></body></envelope>`, ``, `<`, `<r>`, "<r>\n<s>1</s>\n</r>",
 	}
 	xmlQueries := []string{`redact("x.xml().r")`, `redact("x.xml().r.s")`, `redact("x.xml().nosuch")`, `redact("x.xml().r.nosuch")`, `redact("x.xml()")`,
@@ -1074,6 +1083,11 @@ func genKflRedact(r *Rand, tier string, emit func(sx.Sx)) {
 		add("arr", sArr(sObj(sx.S("x"), sent(), sx.S("y"), sent()), sObj(sx.S("x"), sent()), sObj(sx.S("y"), sent())))
 		add("deep", sObj(sx.S("p"), sObj(sx.S("x"), sent(), sx.S("q"), sObj(sx.S("x"), sent()))))
 		add("j", sStr(nested))
+		if i%7 == 2 {
+			// the keys of the nested document written with escapes, as encoders that escape non-ASCII, '/' or '&' do
+			// (Python ensure_ascii, PHP, Go's HTML-safe encoder): the same keys, another spelling of the text
+			nested = strings.NewReplacer(`"m":`, `"\u006d":`, `"x":`, `"\u0078":`, `"k":`, `"\u006b":`, `"inner":`, `"inn\u0065r":`).Replace(nested)
+		}
 		jb := base64.StdEncoding.EncodeToString([]byte(nested))
 		switch i % 5 { // base64 as MIME / PEM writers and the base64 tool emit it: in lines (the decoder skips CR and LF)
 		case 1:
@@ -1122,4 +1136,16 @@ func wrapLines(s string, n int, sep string) string {
 	}
 	b.WriteString(s)
 	return b.String()
+}
+
+// jsonNumbers keeps the digit strings that are JSON numbers as they stand (no leading zero)
+func jsonNumbers(xs []string) []string {
+	var out []string
+	for _, x := range xs {
+		if len(x) > 1 && x[0] == '0' && x[1] != '.' {
+			continue
+		}
+		out = append(out, x)
+	}
+	return out
 }
